@@ -14,7 +14,7 @@ P = {
  "C01": dict(text="Proved about the model, for every oracle meeting the bliss contract and every pair of descriptions of one molecule "
              "(Iso SameIdent: any renumbering, any listing order of atoms and bonds, any bond orientation; no connectivity or asymmetry "
              "hypothesis): tucanOf O g' = tucanOf O g (C01_string_invariant); carried down to the text of two molfiles, V3000 with any "
-             "indices or V2000, that list one molecule's atoms and bonds in different orders (C01_files_same_string); the contract is inhabited. Built from sort "
+             "indices or V2000, that list one molecule's atoms and bonds in different orders (C01_files_same_string, C01_texts_same_string); the contract is inhabited. Built from sort "
              "canonicality, equivariance of partition and refinement, the relabelling lemmas for networkx's container, and "
              "representation independence of the serializer. The probe evaluates the property on the real code.",
              note="igraph/bliss enters as a recorded oracle answer whose contract (a permutation of the vertices; identical canonical "
@@ -94,7 +94,7 @@ P = {
              note="bliss contract as in C01.", tech="Lean 4 proof (parser denotation + C01 + C03) + correspondence + respelling probe"),
  "C12": dict(text="Proved about the model: canonicalization is an injective renaming onto 0…n-1 keeping every attribute but partition and every bond "
              "record (for any oracle returning a permutation); the serializer's post-state differs only in the scratch flag; repeating it "
-             "gives the same string. The harness snapshots arguments, checks aliasing and repeats calls on the same objects.",
+             "gives the same string. The harness snapshots arguments, checks aliasing and repeats calls (serialize 2-4 times) on the same objects.",
              note="value semantics of the model is faithful only without aliasing, which the harness checks.",
              tech="Lean 4 proof (relabelling lemmas) + correspondence with argument post-states + renaming probe"),
  "C13": dict(text="Proved about the model, no oracle: classes are equivariant under relabelling in any listing (equal round counts), invariant under "
@@ -115,7 +115,7 @@ P = {
              note="", tech="Lean 4 proof (totality, termination bound) + correspondence + large-input probe"),
  "C16": dict(text="Proved about the model: the helper's result is the argument renamed by a bijection of its label set (all atom and bond "
              "attributes carried), nodes in label order, and differs in its edge set when enforcement applies. The harness replays the real "
-             "random.shuffle results in the model and compares graphs exactly, incl. node order.",
+             "random.shuffle results in the model and compares graphs incl. node order and all attributes (an atom's bonds as a set).",
              note="random.shuffle is a recorded parameter; termination of the retry loop is almost-sure, not a theorem.",
              tech="Lean 4 proof (relabelling) + exact correspondence with recorded shuffles + faithfulness probe"),
 }
@@ -139,7 +139,7 @@ def main():
         "version": 1,
         "setup_cmd": "/venv/bin/python tools/extract_tables.py && cd lean && lake build",
         "hooks": {
-            "guard": "TUCAN_VERIF",
+            "guard": "TUCAN_NEST_TUCAN_VERIF (unused: there are no hooks in /repo)",
             "enable": "no hooks in /repo: the harness observes public functions in-process and wraps igraph.Graph.canonical_permutation and random.shuffle inside its own process",
             "baseline_off_cmd": "cd /repo && /venv/bin/python -m pytest -ra -q -p no:cacheprovider --timeout=900 --continue-on-collection-errors",
             "source_commits": [],
@@ -152,7 +152,7 @@ def main():
              "kind_free_text": "Python: generators, real-code adapters, correspondence diff, property probes, evidence"},
         ],
         "checks": checks,
-        "notes": "Six genuine defects of the pinned tree were found by these checks and repaired in /repo by 'fix:' commits; see known_findings.json and DESIGN.md §7.",
+        "notes": "Six genuine defects of the pinned tree were found by these checks and repaired in /repo by 'fix:' commits; see known_findings.json and DESIGN.md §6.",
         "not_applicable": [],
     }
     with open(os.path.join(VERIF, "MANIFEST.json"), "w") as f:
